@@ -3,6 +3,7 @@
 From Coq Require Import ZArith NArith List Bool.
 From QP Require Import Cx Zw Apply Local Gates.
 From QPM Require Import Pauli CompBasis Grouping GF2 Operator OperatorExt Expect OperatorAdj SparseExport TransAmp LabelString.
+From QPM Require Intern.
 From QPG Require Import conjtab.
 Import ListNotations.
 
@@ -195,3 +196,34 @@ Proof. exact parse_nodup. Qed.
 Print Assumptions parser_accepts_only_labels_on_distinct_qubits.
 
 (* non-vacuity: LabelString.string_form_examples (documented accepted / rejected forms, evaluated by vm_compute) *)
+
+(* interning (PauliLabel.__new__, model Intern.v): the weak table is keyed by the string form; over every history of constructions
+   and of entries vanishing from the weak table, every construction hands out a label with exactly the requested content *)
+Theorem interning_by_string_form_returns_the_requested_label :
+  forall (ops : list (Intern.op (list (N * sp)) String.string)) (t : Intern.table (list (N * sp)) String.string),
+  Forall (Intern.op_ok _ _ (fun l => NoDup (map fst l))) ops ->
+  Intern.keyed _ _ LabelString.show (fun l => NoDup (map fst l)) t ->
+  Forall (fun lg => snd lg = fst lg) (fst (Intern.run _ _ LabelString.show String.eqb t ops)).
+Proof.
+  intros ops t Hops Ht.
+  apply (Intern.injective_key_returns_the_requested_label _ _ LabelString.show String.eqb String.eqb_eq
+           (fun l => NoDup (map fst l)) show_injective ops t Hops Ht).
+Qed.
+Print Assumptions interning_by_string_form_returns_the_requested_label.
+
+(* whereas ANY key under which two labels collide (a hash, say) makes the second construction return the first label *)
+Theorem interning_by_a_colliding_key_conflates_labels :
+  forall (L K : Type) (key : L -> K) (keqb : K -> K -> bool), (forall a b, keqb a b = true <-> a = b) ->
+  forall l1 l2, key l1 = key l2 ->
+  fst (Intern.run L K key keqb [] [Intern.Construct L K l1; Intern.Construct L K l2]) = [(l1, l1); (l2, l1)].
+Proof. exact Intern.colliding_key_conflates. Qed.
+Print Assumptions interning_by_a_colliding_key_conflates_labels.
+
+(* non-vacuity: X0 Y1, again X0 Y1, the entry vanishes, Z5: each construction returns what was asked for *)
+Example interning_example :
+  fst (Intern.run _ _ LabelString.show String.eqb []
+         [Intern.Construct _ _ [(0%N, SX); (1%N, SY)]; Intern.Construct _ _ [(0%N, SX); (1%N, SY)];
+          Intern.Vanish _ _ (LabelString.show [(0%N, SX); (1%N, SY)]); Intern.Construct _ _ [(5%N, SZ)]])
+  = [([(0%N, SX); (1%N, SY)], [(0%N, SX); (1%N, SY)]); ([(0%N, SX); (1%N, SY)], [(0%N, SX); (1%N, SY)]);
+     ([(5%N, SZ)], [(5%N, SZ)])].
+Proof. vm_compute. reflexivity. Qed.
